@@ -8,6 +8,7 @@ import ApolloModel.Proofs.ParserRecursion17
 import ApolloModel.Proofs.ParserRecursion20
 import ApolloModel.Proofs.ParserRecursion25
 import ApolloModel.Proofs.ParserRecursion31
+import ApolloModel.Proofs.ParserRecursion33
 /-
 C04 — Token and recursion limits are enforced exactly.
 
@@ -162,7 +163,7 @@ theorem value_same_run_below_limit (n : Nat) (c p : Bool) (s : PState) (r R : Na
     (hrR : r ≤ R) (hc : s.recCur ≤ r) (hh : s.recHigh ≤ r) (g : Parse.GI s)
     (hr : (value n c p).run (Parse.setL r s) = .ok () sr) (hR : (value n c p).run (Parse.setL R s) = .ok () sR)
     (hfree : sR.recHigh ≤ R) (hle : sR.recHigh ≤ r) : sr = Parse.setL r sR := by
-  rcases (Parse.xAll n).valueX c p s r R () () sr sR hrR hc hh g trivial hr hR hfree with ⟨t, e1, e2, _, _, _, _⟩ | ⟨_, _, d3⟩
+  rcases (Parse.xAll n).valueX c p s r R () () sr sR hrR hc hh g trivial hr hR with ⟨t, e1, e2, _, _, _, _⟩ | ⟨_, _, d3⟩
   · subst e1 e2; rfl
   · omega
 
@@ -198,7 +199,7 @@ theorem selection_set_rec_high_exact (n : Nat) (s : PState) (r R : Nat) (sr sR :
     (hr : (selectionSet n).run (Parse.setL r s) = .ok () sr) (hR : (selectionSet n).run (Parse.setL R s) = .ok () sR)
     (hfree : sR.recHigh ≤ R) :
     sr.recHigh = min sR.recHigh (r + 1) ∧ (Parse.HasLim sr.errors ↔ (sR.recHigh > r ∨ Parse.HasLim sR.errors)) := by
-  rcases (Parse.xSel n).selSet.x s r R () () sr sR hrR hc hh g trivial hr hR hfree with ⟨t, e1, e2, _, th, _, _⟩ | ⟨d1, d2, d3⟩
+  rcases (Parse.xSel n).selSet.x s r R () () sr sR hrR hc hh g trivial hr hR with ⟨t, e1, e2, _, th, _, _⟩ | ⟨d1, d2, d3⟩
   · subst e1 e2
     refine ⟨?_, ?_⟩
     · show t.recHigh = min t.recHigh (r + 1)
@@ -426,5 +427,105 @@ example : treeDepth (parse .selectionSet none 5 "{ a(x: [], y: {}) }".toList) = 
     (parse .selectionSet none 5 "{ a(x: [], y: {}) }".toList).recHigh = 1 := by decide +kernel
 example : treeDepth (parse .selectionSet none 5 "{ a(x: [[]], y: {b: {}}) }".toList) = 2 ∧
     (parse .selectionSet none 5 "{ a(x: [[]], y: {b: {}}) }".toList).recHigh = 2 := by decide +kernel
+
+/-! ### The token-limit error is the last error (growth) -/
+
+/-- "…and reports no error after the first limit error" (the token-limit clause): once the lexer refused an
+    item (`tokHigh > n`), the error list ENDS with a limit error — for every entry point, every recursion limit,
+    no side condition.  After the refusal the lexer hands out nothing (so no lexer error can follow),
+    `accept_errors` is false (so `push_err` drops everything) and `limit_err` finds no token to report at (so a
+    later hit of the recursion guard adds nothing either). -/
+theorem token_limit_error_is_last (e : Entry) (n r : Nat) (src : Parse.Str) (h : (parse e (some n) r src).tokHigh > n) :
+    ∃ pre i, (parse e (some n) r src).errors = pre ++ [(⟨i, 0, .limit⟩ : PErr)] :=
+  Parse.parse_token_limit_error_last e n r src h
+
+-- both limits: the recursion-limit error first, then a lexer error, then the token-limit error — which is last
+example : (parse .document (some 13) 1 "{ a { b } } ~ { c }".toList).errors.map (·.kind) = [.limit, .lexer, .limit] ∧
+    (parse .document (some 13) 1 "{ a { b } } ~ { c }".toList).tokHigh = 14 := by decide +kernel
+-- the token limit first: nothing follows, not even the recursion-limit error of the guard that is hit afterwards
+example : (parse .document (some 5) 1 "{ a { b } }".toList).errors.map (·.kind) = [.limit] ∧
+    (parse .document (some 5) 1 "{ a { b } }".toList).recHigh = 2 ∧
+    (parse .document (some 5) 1 "{ a { b } }".toList).tokHigh = 6 := by decide +kernel
+
+/-! ### A limit error is reported iff the limit was hit; the closed form needs only "no error" (growth)
+
+The cross-run calculus (Proofs/ParserRecursion8–17) no longer needs "the larger limit is not hit": when the
+larger limit is hit at a guard, the smaller one is hit at the same guard.  Comparing a parse with itself gives
+"hit ⇒ the limit error is on record" (at every guard site a token is there to report it at). -/
+
+/-- No token limit: a limit error is reported if and only if the recursion limit was hit — every entry point,
+    every source text, every limit. -/
+theorem limit_error_iff_hit (e : Entry) (R : Nat) (src : Parse.Str) :
+    (∃ x, x ∈ (parse e none R src).errors ∧ x.kind = .limit) ↔ (parse e none R src).recHigh > R :=
+  Parse.parse_limit_iff_hit e R src
+
+/-- The cross-run statement with NO side condition: for all `r ≤ R`, the limited run's high-water mark is
+    `min (high-water mark of the run with R) (r + 1)` and it reports a limit error iff that mark exceeds `r`. -/
+theorem rec_limit_cross_run (e : Entry) (r R : Nat) (src : Parse.Str) (hrR : r ≤ R) :
+    (parse e none r src).recHigh = min (parse e none R src).recHigh (r + 1) ∧
+    ((∃ x, x ∈ (parse e none r src).errors ∧ x.kind = .limit) ↔ (parse e none R src).recHigh > r) :=
+  Parse.parse_cross_all e r R src hrR
+
+/-- The closed form from "no error" alone: the high-water mark of an error-free parse is the depth of its tree. -/
+theorem rec_high_is_tree_depth_of_no_error (e : Entry) (R : Nat) (src : Parse.Str) (herr : (parse e none R src).errors = []) :
+    ∃ root, (parse e none R src).outcome = .tree root ∧ (parse e none R src).recHigh = Parse.gd root :=
+  Parse.parse_depth_of_no_error e R src herr
+
+/-- **The property's wording**: for an input that some parse (limit `R`) accepts without error, with `root` the
+    tree of that parse: for every `r ≤ R`, a recursion-limit error is reported with limit `r` if and only if the
+    nesting depth `gd root` exceeds `r`; the tracker stops at exactly `min (gd root) (r + 1)`. -/
+theorem rec_limit_iff_tree_depth_of_no_error (e : Entry) (r R : Nat) (src : Parse.Str) (hrR : r ≤ R)
+    (herr : (parse e none R src).errors = []) :
+    ∃ root, (parse e none R src).outcome = .tree root ∧
+      ((∃ x, x ∈ (parse e none r src).errors ∧ x.kind = .limit) ↔ Parse.gd root > r) ∧
+      (parse e none r src).recHigh = min (Parse.gd root) (r + 1) := by
+  obtain ⟨root, h1, h2⟩ := rec_high_is_tree_depth_of_no_error e R src herr
+  obtain ⟨h3, h4⟩ := rec_limit_cross_run e r R src hrR
+  exact ⟨root, h1, by rw [← h2]; exact h4, by rw [← h2]; exact h3⟩
+
+/-! With a token limit ALSO set, "`recHigh > r` ⇒ a limit error is reported" is not proved (the calculus above is
+for runs without token limit; the statement is believed true: at a guard site either a token is current or the
+lexer has just refused one, and then the token-limit error is on record — second example above — and is compared
+on the implementation for every (n, r) pair).  What IS proved with both limits: `token_limit_parse` (a limit error
+comes from the refused item or from a hit guard) and `token_limit_error_is_last`. -/
+
+/-! ### The tree depth and the Ast-level budgets of the completeness theorems (C05/C07) -/
+
+/-- Types: for a source text that spells the type reference `t` (hypotheses of `type_in_grammar_is_accepted`), the
+    depth of the returned tree is exactly `tyDepth t`; and `Parse.typeDepth src = tyDepth t`. -/
+theorem type_tree_depth_is_tyDepth (rl : Nat) (src : Parse.Str) (t : Ast.Ty) (ts : List Tok) (e : Tok)
+    (hclean : LexClean src) (hsig : sig (srcToks src) = ts ++ [e]) (he : e.kind = .eof)
+    (hty : ts.map astOf = (Ast.tTy t).map some) (hdepth : Parse.tyDepth t ≤ rl) (hhead : HeadSig (srcToks src)) :
+    (∃ root, (parse .type none rl src).outcome = .tree root ∧ Parse.gd root = Parse.tyDepth t) ∧
+    Parse.typeDepth src = Parse.tyDepth t :=
+  ⟨Parse.type_tree_depth rl src t ts e hclean hsig he hty hdepth hhead, Parse.typeDepth_eq_tyDepth src t ts e hsig hty hhead⟩
+
+/-- Selection sets: for a source text that spells the selections `ss` (hypotheses of `fieldset_accept_complete`),
+    fitting the budget `rl − 1` implies that the returned tree is at most `rl` deep (= the high-water mark).
+    The converse fails: the budget charges one level for an empty list / object (`vdepth (.list .nil) = 1`),
+    the parser guards the items and the tree depth counts them — witnesses below. -/
+theorem selection_set_budget_bounds_tree_depth (rl : Nat) (src : Parse.Str) (ss : Ast.Sels) (ts : List Tok) (e : Tok)
+    (hclean : LexClean src) (hsig : sig (srcToks src) = ts ++ [e]) (he : e.kind = .eof)
+    (hne : ss ≠ Ast.Sels.nil) (hb : 1 ≤ rl) (hfit : Parse.fitSels ss (rl - 1))
+    (hx : (TokIs ts (.p .lCurly :: Ast.tSels ss ++ [.p .rCurly]) ∧ HeadSig (srcToks src)) ∨ TokIs ts (Ast.tSels ss)) :
+    ∃ root, (parse .selectionSet none rl src).outcome = .tree root ∧ Parse.gd root ≤ rl ∧
+      (parse .selectionSet none rl src).recHigh = Parse.gd root :=
+  Parse.selection_set_tree_depth_le rl src ss ts e hclean hsig he hne hb hfit hx
+
+-- where the two notions differ: `{ a(x: []) }` is accepted with limit 1 and its tree is 1 deep …
+example : (parse .selectionSet none 1 "{ a(x: []) }".toList).errors = [] ∧
+    treeDepth (parse .selectionSet none 1 "{ a(x: []) }".toList) = 1 := by decide +kernel
+-- … but its selections do not fit the budget 0 = 1 − 1, because the empty list is charged one level
+example : Parse.vdepth (.list .nil) = 1 ∧ Parse.vdepth (.obj .nil) = 1 := ⟨rfl, rfl⟩
+example : ¬ Parse.fitSels (.cons (.field none "a".toList [("x".toList, .list .nil)] [] .nil) .nil) 0 := by
+  intro h
+  rw [Parse.fitSels, Parse.fitSel] at h
+  have := (h.1.1 ("x".toList, .list .nil) (by simp)).2
+  simp [Parse.vdepth, Parse.vsdepth] at this
+-- same for `{}`; a non-empty list is charged the same by both
+example : (parse .selectionSet none 1 "{ a(x: {}) }".toList).errors = [] ∧
+    treeDepth (parse .selectionSet none 1 "{ a(x: {}) }".toList) = 1 := by decide +kernel
+example : treeDepth (parse .selectionSet none 2 "{ a(x: [1]) }".toList) = 2 ∧ Parse.vdepth (.list (.cons (.int "1".toList) .nil)) = 1 :=
+  ⟨by decide +kernel, rfl⟩
 
 end Apollo.C04
